@@ -19,7 +19,7 @@ SETUP_KEY = "api"
 PID = "C12"
 THEOREMS = ["C12_invariant", "C12_invariant_base", "C12_variance_fixpoint", "C12_alias_invariant",
             "C12_not_send_sync", "C12_callbacks", "C12_sub_preserves_brand", "C12_static_only",
-            "C12_impl_args_keep_brand", "C12_no_unknown_syntax"]
+            "C12_impl_args_keep_brand", "C12_args_share_brand", "C12_no_unknown_syntax"]
 
 # probe item "variance:<Type>:.." -> (kind, name in the model's tables)
 VARIANCE_TYPES = {
@@ -53,6 +53,8 @@ def _report():
         ("static_only", "map (fun i => (ctor_name (i_self i), sb (collect_impl_static_ok i))) (filter is_guarded_collect_impl collect_impls)"),
         ("impl_brand", "map (fun i => (i_trait i ++ \" for \" ++ ctor_name (i_self i) ++ \" (\" ++ i_file i ++ \")\", sb (impl_args_brand_ok i))) "
                        "(filter (fun i => match impl_arg_lts i with [] => false | _ => true end) impls)"),
+        ("args_brand", "map (fun f => (fq f, sb (ModelSigs.args_share_brand decls (branded (mk_adts decls)) f))) "
+                       "(filter (fun f => Nat.ltb 1 (List.length (ModelSigs.fn_brands decls (branded (mk_adts decls)) f))) GenSigs.pub_fns)"),
         ("unknown", "map (fun s => (s, \"\")) GenTypes.unknown_items"),
     ]
     return sf.model_report("c12_report", evals)
@@ -130,6 +132,10 @@ def run(chk, tier, seed):
         if v != "true":
             offenders.append("impl %s: a trait argument mentions a lifetime parameter the self type does not (the conversion can re-brand a pointer)" % k)
     chk.cov["model_impl_brand"] = rep.get("impl_brand", [])
+    for k, v in rep.get("args_brand", []):
+        if v != "true":
+            offenders.append("fn %s takes its branded arguments (context / pointers / self) at different or anonymous lifetimes: a caller can mix two arenas" % k)
+    chk.cov["model_args_brand_checked"] = len(rep.get("args_brand", []))
     for k, _ in rep.get("unknown", []):
         offenders.append("unclassified syntax: " + k)
     chk.cov["offending_items"] = offenders
